@@ -296,6 +296,8 @@ func (w *siteWalker) walk(n *ast.Node, parent *ast.Node, idxInParent int, sameTy
 	case ll.IndirectSymbolDef:
 		if name := n.Child(selector.GlobalIdent); name != nil && !isUnnamedIdent(name.Text()) {
 			w.sites = append(w.sites, Site{Kind: "dup:global variable with the name of an alias/ifunc", Off: n.Offset(), End: n.Endoffset(), Text: name.Text(), InsertAt: n.Endoffset(), Insert: "\n" + name.Text() + " = global i32 0\n"})
+			w.sites = append(w.sites, Site{Kind: "dup:function declaration with the name of an alias/ifunc", Off: n.Offset(), End: n.Endoffset(), Text: name.Text(), InsertAt: n.Endoffset(), Insert: "\ndeclare void " + name.Text() + "()\n"})
+			w.sites = append(w.sites, Site{Kind: "dup:function definition with the name of an alias/ifunc", Off: n.Offset(), End: n.Endoffset(), Text: name.Text(), InsertAt: n.Endoffset(), Insert: "\ndefine void " + name.Text() + "() {\n  ret void\n}\n"})
 		}
 	case ll.LocalDefInst:
 		if name := n.Child(selector.LocalIdent); name != nil && !isUnnamedIdent(name.Text()) {
@@ -554,6 +556,17 @@ func nearMiss(text, old string, mode int) string {
 			return ""
 		}
 		cand = old[:1] + "\"\\01" + old[1:] + "\""
+		if strings.Contains(text, cand) {
+			return ""
+		}
+		return cand
+	}
+	if mode == 5 {
+		// the sigil twice: '$' may start an unquoted name, so $$x is the comdat "$x"
+		if old[0] != '$' {
+			return ""
+		}
+		cand = "$" + old
 		if strings.Contains(text, cand) {
 			return ""
 		}
@@ -821,7 +834,7 @@ func c05Search() {
 				sum.Skipped["sites not sampled in the quick tier"]++
 				continue
 			}
-			for variant := 0; variant < 7; variant++ {
+			for variant := 0; variant < 8; variant++ {
 				cross, numeric := variant == 1, variant == 2
 				near := 0
 				if variant >= 3 {
